@@ -343,7 +343,37 @@ class _Timeout(Exception):
     pass
 
 
-def observe(text: str):
+# file shapes of a member (label suffix "|shape:<name>"): the refactoring must preserve behaviour whatever the file's encoding,
+# byte order mark or line-ending convention; the non-UTF-8 shapes print a non-ASCII literal so that mis-encoding is observable
+SHAPES = ("latin1", "cp1252", "crlf", "bom")
+SHAPED_PER_FAMILY = 3
+
+
+def shape_of(label):
+    return label.rsplit("|shape:", 1)[1] if "|shape:" in label else None
+
+
+def shape_bytes(text: str, shape) -> bytes:
+    if shape is None:
+        return text.encode("utf-8")
+    if shape == "crlf":
+        return text.replace("\n", "\r\n").encode("utf-8")
+    if shape == "bom":
+        return b"\xef\xbb\xbf" + text.encode("utf-8")
+    cookie, lit = {"latin1": ("latin-1", "caf\u00e9 \u00f1and\u00fa"), "cp1252": ("cp1252", "\u00c1rbol \u20ac")}[shape]
+    return (f"# -*- coding: {cookie} -*-\n" + text + f'print(len("{lit}"), "{lit}".encode("unicode_escape"))\n').encode(cookie)
+
+
+def shaped_members(members):
+    out = list(members)
+    usable = [(lab, text) for lab, text in members if text.isascii() and text.endswith("\n") and not text.startswith("#!")][:SHAPED_PER_FAMILY]
+    for lab, text in usable:
+        for sh in SHAPES:
+            out.append((f"{lab}|shape:{sh}", text))
+    return out
+
+
+def observe(text):
     def on_alarm(signum, frame):
         raise _Timeout()
 
@@ -367,20 +397,23 @@ def observe(text: str):
 
 def chunk_job(arg):
     cm, items = arg  # items: [(index, label, text)]
-    files = {f"m{i:05d}.py": text.encode() for i, _, text in items}
+    files = {f"m{i:05d}.py": shape_bytes(text, shape_of(label)) for i, label, text in items}
     obs = drive.run_inproc(drive.Job(files=files, argv=["{dir}", "--codemod-include", cm], keep_before=False))
     if obs.error:
         raise core.HarnessError(obs.error)
     out = []
     for i, label, text in items:
-        after = obs.final.get(f"m{i:05d}.py", b"").decode("utf-8", "replace")
+        sh = shape_of(label)
+        before_b = shape_bytes(text, sh)
+        after_b = obs.final.get(f"m{i:05d}.py", b"")
+        after = after_b.decode("utf-8", "replace")
         if obs.exit != 0:
             out.append((i, label, "run-failed", f"exit {obs.exit}", False))
             continue
-        if after == text:
+        if after_b == before_b:
             out.append((i, label, None, None, False))
             continue
-        o1, o2 = observe(text), observe(after)
+        o1, o2 = (observe(text), observe(after)) if sh is None else (observe(before_b), observe(after_b))
         if o1 != o2:
             cause = f"raises-{o2[1]}" if (o2[1] and not o1[1]) else (f"no-longer-raises-{o1[1]}" if (o1[1] and not o2[1]) else "different-output")
             out.append((i, label, f"behaviour-differs:{cause}", f"original -> {o1!r}; rewritten -> {o2!r}\n--- original\n{text}--- rewritten\n{after}", True))
@@ -390,18 +423,23 @@ def chunk_job(arg):
 
 
 def member_eval_cli(arg):
-    cm, text = arg
-    obs = drive.run_cli(drive.Job(files={"m.py": text.encode()}, argv=["{dir}", "--codemod-include", cm]))
+    cm, text, *rest = arg
+    sh = rest[0] if rest else None
+    before_b = shape_bytes(text, sh)
+    obs = drive.run_cli(drive.Job(files={"m.py": before_b}, argv=["{dir}", "--codemod-include", cm]))
     if obs.error:
         raise core.HarnessError(obs.error)
     after = obs.final["m.py"].decode("utf-8", "replace")
-    return after, observe(text), observe(after)
+    if sh is None:
+        return after, observe(text), observe(after)
+    return after, observe(before_b), observe(obs.final["m.py"])
 
 
 def explore(tier, seed):
     jobs, fam_sizes = [], {}
     for fam in FAMILIES:
         cm, members = fam(tier)
+        members = shaped_members(members)
         fam_sizes[cm] = len(members)
         items = [(i, lab, text) for i, (lab, text) in enumerate(members)]
         for k in range(0, len(items), 150):
@@ -422,22 +460,24 @@ def explore(tier, seed):
                 nontrivial.add((cm, text))
             if kind:
                 pc[2] += 1
-                sig = f"{cm}|{lab.split('|args=')[0]}|{kind}"
+                sh = shape_of(lab)
+                # a difference that only shows under a file shape is a property of the shape, not of the family row
+                sig = f"{cm}|shape:{sh}|{kind}" if sh else f"{cm}|{lab.split('|args=')[0]}|{kind}"
                 c = cands.get(sig)
                 if c is None or len(text) < len(c[0]):
-                    cands[sig] = (text, detail, cm)
+                    cands[sig] = (text, detail, cm, sh)
     known_open = {k["signature"] for k in core.load_known() if k["property"] == PROP and k["status"] == "open"}
     new = [(s, c) for s, c in sorted(cands.items()) if s not in known_open]
-    confirmed = drive.pmap("cmverif.checks.c08:member_eval_cli", [(c[2], c[0]) for _, c in new])
+    confirmed = drive.pmap("cmverif.checks.c08:member_eval_cli", [(c[2], c[0], c[3]) for _, c in new])
     violations, divergence = [], []
-    for (sig, (text, detail, cm)), (after, o1, o2) in zip(new, confirmed):
+    for (sig, (text, detail, cm, sh)), (after, o1, o2) in zip(new, confirmed):
         if o1 != o2:
-            violations.append(Violation(PROP, sig, detail[:900], {"codemod": cm, "program": text, "sig": sig}, 1))
+            violations.append(Violation(PROP, sig, detail[:900], {"codemod": cm, "program": text, "shape": sh, "sig": sig}, 1))
         else:
             divergence.append(sig)
-    for sig, (text, detail, cm) in sorted(cands.items()):
+    for sig, (text, detail, cm, sh) in sorted(cands.items()):
         if sig in known_open:
-            violations.append(Violation(PROP, sig, detail[:900], {"codemod": cm, "program": text, "sig": sig}, 1))
+            violations.append(Violation(PROP, sig, detail[:900], {"codemod": cm, "program": text, "shape": sh, "sig": sig}, 1))
     sample_cm, sample_members = FAMILIES[0](tier)
     coverage = {
         "evaluations": evaluations,
@@ -447,6 +487,7 @@ def explore(tier, seed):
         "exhaustive": True,
         "families": {cm: {"members": v[0], "changed_by_codemod": v[1], "behaviour_differs": v[2]} for cm, v in sorted(per_cm.items())},
         "family_rows_with_a_difference": len(cands),
+        "file_shapes": {"shapes": list(SHAPES), "members_per_family": SHAPED_PER_FAMILY},
         "cli_divergence": divergence,
     }
     assumptions = [
@@ -459,5 +500,5 @@ def explore(tier, seed):
 
 
 def replay(rp):
-    after, o1, o2 = member_eval_cli((rp["codemod"], rp["program"]))
+    after, o1, o2 = member_eval_cli((rp["codemod"], rp["program"], rp.get("shape")))
     return (o1 == o2), f"--- original\n{rp['program']}--- rewritten\n{after}original -> {o1!r}\nrewritten -> {o2!r}"
